@@ -202,3 +202,16 @@ CLAIMS["C04"] = {
     "note": "Not decided: the probabilistic clause itself (a statement about a distribution of elections) and validity of the level "
             "<= 1 for all (alpha, n) (arithmetic; C14 / O1). Solver semantics trusted.",
 }
+
+CLAIMS["C05"] = {
+    "technique": "def-use terms + rational normal forms for residualisation, baseline, fit arguments and the prediction formula; "
+                 "constant folding of the featurizer for empty covariates",
+    "level": "Decides, for all sets of reporting and nonreporting units, every step of the closed form: residual = (results - last) / "
+             "last on the modelled reporting frame, last = baseline + 1, the median fit is fit_model(tau 0.5, those residuals, "
+             "weights = last, active features of the first n_train rows of the intercept design built from [reporting, "
+             "nonreporting]), prediction = round(max(p * last + last, partial count)) with p the fitted model on the nonreporting "
+             "rows, and with no features / fixed effects the design folds to the single column 'intercept'. The covariate-free "
+             "model is never run by the suite.",
+    "note": "Not decided: that an intercept-only weighted tau=0.5 quantile regression equals the weighted median (elexsolver "
+            "semantics, trusted) and uniqueness of the median.",
+}
